@@ -289,7 +289,7 @@ def gen_table(rng, L, conforming=True):
     for cid in range(1, n + 1):
         params = []
         if rng.random() < 0.6:
-            for k in range(rng.randint(1, 2)):
+            for k in range(rng.choice([1, 1, 2, 2, 3])):
                 var = rng.choice([0, 0, 1, 2])
                 bound = None
                 r = rng.random()
@@ -324,7 +324,11 @@ def gen_table(rng, L, conforming=True):
                         gens = [g for g in cands if tab[g][0] and len(tab[g][0]) == 1]
                         q = rng.choice(params)
                         if gens and ((not conforming) or q[2] == 0):
-                            args.append(("A", rng.choice(gens), [q]))
+                            if rng.random() < 0.25:
+                                # the parameter occurs only under a use-site projection:  Y<L<out T>>
+                                args.append(("A", rng.choice(gens), [("W", rng.choice([1, 2]), q)]))
+                            else:
+                                args.append(("A", rng.choice(gens), [q]))
                         else:
                             args.append(gen_ground(rng, L, tab, ground_pool, 1))
                     else:
@@ -337,6 +341,7 @@ def gen_table(rng, L, conforming=True):
 
 
 def gen_ground(rng, L, tab, pool, depth):
+    """a closed type over the table whose arguments respect the declared bounds"""
     r = rng.random()
     nong = [c for c in tab if not tab[c][0]]
     gen = [c for c in tab if tab[c][0]]
@@ -346,8 +351,33 @@ def gen_ground(rng, L, tab, pool, depth):
         return ("C", rng.choice(nong))
     if gen and depth > 0:
         c = rng.choice(gen)
-        return ("A", c, [gen_ground(rng, L, tab, pool, depth - 1) for _ in tab[c][0]])
+        return ("A", c, bounded_args(rng, L, tab, pool, depth - 1, tab[c][0]))
     return rng.choice(pool)
+
+
+def bounded_args(rng, L, tab, pool, depth, params):
+    args = []
+    m = {}
+    for p in params:
+        if p[3] is None:
+            a = gen_ground(rng, L, tab, pool, depth)
+        else:
+            a = subst_term(m, p[3])          # the bound itself, instantiated with the earlier arguments
+            if not _closed(a):
+                a = gen_ground(rng, L, tab, pool, 0)
+        m[_key(p)] = a
+        args.append(a)
+    return args
+
+
+def _closed(t):
+    if t[0] in ("V", "K"):
+        return False
+    if t[0] == "A":
+        return all(_closed(a) for a in t[2])
+    if t[0] == "W":
+        return t[2] is None or _closed(t[2])
+    return True
 
 
 def gen_type(rng, L, tab, depth, scope, malformed=False):
